@@ -173,3 +173,7 @@ def replay(ctx, payload):
             return check_accepted(t)[0]
         return None
     return replay_parse(ctx, payload, oracle)
+
+
+def still_fails(ctx, t):
+    return check_accepted(t)[0] is not None
